@@ -138,7 +138,11 @@ func (w *World) Explore(spec RunSpec, known map[string]bool, workers int, seed i
 											inconcl = fmt.Sprint("while recording panic: ", r2)
 										}
 									}()
-									x.violation("panic", e.msg, "")
+									if strings.HasPrefix(e.msg, "fatal error: all goroutines are asleep") {
+										x.violation("deadlock", "all goroutines are asleep - deadlock (some goroutine blocks forever)", e.msg)
+									} else {
+										x.violation("panic", e.msg, "")
+									}
 								}()
 							case abortPath:
 								outcome = "end:" + e.why
